@@ -160,7 +160,9 @@ func runClient(rp *reply, invs []invocation.Invocation, service ucan.Principal) 
 	}
 	hdr := http.Header{}
 	hdr.Set("Content-Type", car.ContentType)
-	if rp.CT != "" {
+	if rp.CT == "-" {
+		hdr.Del("Content-Type") // no Content-Type header at all
+	} else if rp.CT != "" {
 		hdr.Set("Content-Type", rp.CT)
 	}
 	var ch transport.Channel = &scripted{status: rp.Status, body: body, hdr: hdr}
@@ -170,7 +172,11 @@ func runClient(rp *reply, invs []invocation.Invocation, service ucan.Principal) 
 			ct := hdr.Get("Content-Type")
 			switch rp.Framing {
 			case "cl":
-				w.Header().Set("Content-Type", ct)
+				if rp.CT == "-" {
+					w.Header()["Content-Type"] = nil // suppress net/http's content sniffing as well
+				} else {
+					w.Header().Set("Content-Type", ct)
+				}
 				w.Header().Set("Content-Length", fmt.Sprint(len(body)))
 				w.WriteHeader(rp.Status)
 				w.Write(body)
@@ -196,7 +202,10 @@ func runClient(rp *reply, invs []invocation.Invocation, service ucan.Principal) 
 					return
 				}
 				defer c.Close()
-				fmt.Fprintf(bw, "HTTP/1.0 %d X\r\nContent-Type: %s\r\n", rp.Status, ct)
+				fmt.Fprintf(bw, "HTTP/1.0 %d X\r\n", rp.Status)
+				if rp.CT != "-" {
+					fmt.Fprintf(bw, "Content-Type: %s\r\n", ct)
+				}
 				if rp.Framing == "short" {
 					fmt.Fprintf(bw, "Content-Length: %d\r\n", len(body)+64)
 				}
@@ -564,6 +573,15 @@ func c15Replies(seed int64, tier string) ([]*reply, []invocation.Invocation, uca
 					ct = "text/html"
 				}
 				overHTTP = append(overHTTP, &reply{Label: fmt.Sprintf("http-error status=%d framing=%s body=%d", st, fr, bi), Status: st, Framing: fr, Raw: raw, CT: ct,
+					Lookups: []ipld.Link{invs[0].Link()}})
+			}
+		}
+	}
+	// replies without a Content-Type header, or with a blank / odd one (a handler that writes no body sends none)
+	for _, ct := range []string{"-", " ", ";", ",", "application/vnd.ipld.car; charset=binary", "APPLICATION/VND.IPLD.CAR", "text/plain"} {
+		for _, fr := range []string{"", "cl", "close"} {
+			for bi, bodyv := range [][]byte{goodBytes, {}} {
+				overHTTP = append(overHTTP, &reply{Label: fmt.Sprintf("content-type %q framing=%q body=%d", ct, fr, bi), Status: 200, Framing: fr, Raw: bodyv, CT: ct,
 					Lookups: []ipld.Link{invs[0].Link()}})
 			}
 		}
